@@ -98,9 +98,9 @@ def oracle_glue(case, fi, fm):
     (absolute roots) with a requested / skipped path under no root — nothing may be walked or extracted; without any filesystem extractor the scan
     succeeds at once with an empty result and visits no inode (limits, faults and a cancelled context do not apply)."""
     g = fm.get('glue')
-    if g == 'refused' and (fi.get('err') != 'cfg' or fi.get('vis') != '0' or fi.get('calls', '-') != '-' or fi.get('pkgs', '-') != '-'):
+    if g == 'refused' and (fi.get('err') != 'cfg' or fi.get('vis') not in ('0', '?') or fi.get('calls', '-') != '-' or fi.get('pkgs', '-') != '-'):
         return 'the configuration must be refused before any walk, but the scan reported err=%s vis=%s calls=%s' % (fi.get('err'), fi.get('vis'), fi.get('calls'))
-    if g == 'empty' and (fi.get('err') != 'none' or fi.get('vis') != '0' or fi.get('calls', '-') != '-' or fi.get('st', '-') != '-'):
+    if g == 'empty' and (fi.get('err') != 'none' or fi.get('vis') not in ('0', '?') or fi.get('calls', '-') != '-' or fi.get('st', '-') != '-'):
         return 'no filesystem extractor is enabled: the scan must succeed with an empty result without visiting anything, reported err=%s vis=%s st=%s' % (
             fi.get('err'), fi.get('vis'), fi.get('st'))
     return None
@@ -116,6 +116,8 @@ def oracle_machine(case, fi, fm):
         return None if eofs else 'the scan failed with a filesystem error although ErrorOnFSErrors is off'
     want = (fm['mspecerr'], fm.get('mspecvis'), fm.get('mspeccalls'))
     got = (fi.get('err'), fi.get('vis'), fi.get('calls'))
+    if fi.get('vis') == '?':   # no stats collector configured (ScanConfig.Stats nil): the visit count is not observable
+        want, got = (want[0], '?', want[2]), (got[0], '?', got[2])
     if got != want:
         return 'limit/cancellation outcome: the sequential reading of the specification gives err=%s vis=%s calls=%s, the scan reported err=%s vis=%s calls=%s' % (want + got)
     return None
